@@ -192,4 +192,34 @@ CLAIMS = {
                 "2k >= n (exact below 2^53).",
         "technique": "Lean 4 equivalence proofs between two transcriptions + out-of-tree compilation and ctypes differential",
     },
+    "C16": {
+        "text": "C16_concat: for every fingerprint generator fp (None = invalid SMILES), SMILES list and batch size >= 1, the part files "
+                "of `bb fps-from-smiles` in list order and in sorted-name order (zero-padded names, C16_digits: the CLI's own digit count is "
+                "wide enough) and the single shared-memory file all hold exactly the fingerprints of the valid SMILES in input order "
+                "(= fps_from_smiles); C16_concat_any_order: for every order in which the pool runs the range tasks; C16_invalid: the "
+                "reported indices are exactly the invalid positions, ascending; C16_batches (batches/ranges are consecutive and cover the "
+                "input); C16_split_merge; C16_shuffle (multiset of rows); C16_fileseq / _rows / _err: indexing a file sequence by a sorted "
+                "index list (repeats, empty, empty files) = indexing the concatenation, otherwise ValueError. Correspondence: real commands "
+                "and real indexer vs the model's part names / sizes / indices / rows; oracle vs the in-process API.",
+        "note": TB + "PARTIAL: fps-info (header parsing, console output) is checked by the suite only (no theorem: it has no logic beyond two "
+                "predicates on shape and dtype). RDKit is a parameter (fp). Interleaving of single writes into shared memory is not "
+                "modelled: each position is owned by one task. KNOWN FINDING (known_findings.json): multi-part --skip-invalid reports "
+                "counts, not indices. Fixed defects: -m with several processes, fps-info on one file, fps-info on non-integer dtype.",
+        "technique": "Lean 4 theorems over executable model + differential correspondence with the real commands",
+    },
+    "C19": {
+        "text": "C19_analysis_select (reported clusters = longest prefix with <= top clusters of size >= min_size), C19_analysis (sizes = "
+                "member-list lengths, iSIM = iSIM of the members' rows in any id order, total / clusters / singletons / above-size "
+                "counts), C19_provider / _files / _files_packed (array, file and file-sequence providers with the same concatenation give "
+                "the same analysis), C19_packed / C19_packed_indices / C19_packed_jt (packed = unpacked for every F, for the analysis and "
+                "the three indices), C19_perm_rows (all three indices invariant under row permutations), C19_perm_clusters (CHI and DBI "
+                "invariant under cluster permutations; Dunn when no cluster is a singleton); C19_dunn_nan_witness / C19_dunn_nan_first: "
+                "with a singleton cluster Dunn DOES depend on cluster order. Correspondence and oracles: real cluster_analysis over all "
+                "providers, real indices under permutations, bb summary.",
+        "note": TB + "PARTIAL: the indices are modelled as exact rational combinations of the float-valued similarities (the property allows "
+                "summation-order differences; compared to rel 1e-9); zero divisions (wcss = 0, equal centroids) are total in the model and "
+                "excluded from the comparison; assume_sorted=False is sorted by the harness; smiles / scaffold analysis and medoid centrals "
+                "not modelled. KNOWN FINDING (known_findings.json): Dunn depends on cluster order when singleton clusters are present.",
+        "technique": "Lean 4 theorems over executable model + differential correspondence + permutation oracles",
+    },
 }
